@@ -517,7 +517,7 @@ func (e *Exec) builtin(f *frame, in ssa.Instruction, b *ssa.Builtin, args []Val,
 		m, k := args[0], args[1]
 		mt := m.Typ.Underlying().(*types.Map)
 		dc, _ := e.mapComps(mt)
-		e.guardedComp(f, dc, h, g, in)
+		e.guardObl(f, m.Guard, h, g, in, true)
 		h = h.clone()
 		h.m[dc] = store(e.hget(h, dc), m.T, store(sel(e.hget(h, dc), m.T), k.T, "false"))
 		return Val{Typ: rt}, h, g
@@ -974,6 +974,7 @@ func (e *Exec) contractCall(f *frame, in ssa.Instruction, sp *FuncSpec, key stri
 		e.reassertPrivate(pre, post)
 	}
 	e.applyGhostSets(sp, full, post, g)
+	e.lockOps(sp, args, post)
 	gout := g
 	for _, c := range sp.Clauses {
 		if c.Kind != KEnsures {
@@ -1044,23 +1045,91 @@ func (e *Exec) heldTerm(h *Heap, m Val) string {
 	return sel(e.hget(h, "LOCKS"), v.T)
 }
 
-func (e *Exec) guardedAccess(f *frame, a *Addr, h *Heap, g string, in ssa.Instruction, write bool) {
-	if a.Comp == "" || len(e.eng.guarded) == 0 {
-		return
+// guardedAccess: the lock discipline at a load or store of a protected field. Returns the use record that a
+// map loaded from the field carries to the operations on its contents.
+func (e *Exec) guardedAccess(f *frame, a *Addr, h *Heap, g string, in ssa.Instruction, write bool) *guardUse {
+	if a.Comp == "" || len(e.eng.guarded) == 0 || len(a.Path) > 0 {
+		return nil
 	}
-	e.guardedComp(f, a.Comp, h, g, in)
+	gi, ok := e.eng.guarded[a.Comp]
+	if !ok || e.specDepth > 0 {
+		return nil
+	}
+	gu := &guardUse{gi: gi, mref: e.refTerm(&Addr{Ref: a.Ref, Comp: gi.mutexComp})}
+	if mt, ok := a.Typ.Underlying().(*types.Map); ok {
+		gi.mapType = mt
+	}
+	e.guardObl(f, gu, h, g, in, write)
+	return gu
 }
 
-func (e *Exec) guardedComp(f *frame, comp string, h *Heap, g string, in ssa.Instruction) {
-	// map-typed guarded fields are accessed through their field component and their map components;
-	// the discipline is enforced on the field access (every map operation starts by loading the field).
-	mu, ok := e.eng.guarded[comp]
-	if !ok || e.specDepth > 0 || e.quiet > 0 {
+// guardObl emits "the protecting mutex is held here".
+func (e *Exec) guardObl(f *frame, gu *guardUse, h *Heap, g string, in ssa.Instruction, write bool) {
+	if gu == nil || e.specDepth > 0 || e.quiet > 0 || (gu.gi.rule.WriteOnly && !write) || !e.wantClause(gu.gi.clause) {
 		return
 	}
-	_ = mu
-	if e.guardHook != nil {
-		e.guardHook(f, comp, mu, h, g, in)
+	e.compDecl("LOCKS", "(Array Ref Bool)")
+	t := sel(e.hget(h, "LOCKS"), gu.mref)
+	e.callOrd["guard:"+gu.gi.comp]++
+	kind := "read"
+	if write {
+		kind = "write"
+	}
+	e.addObligation(f, "lock-held", gu.gi.clause, fmt.Sprintf("%s.%s@%s%d", labelOr(gu.gi.clause, "guarded"), kind, f.path, e.callOrd["guard:"+gu.gi.comp]), g, t, in.Pos())
+}
+
+// lockOps applies the acquires / releases clauses of a trusted lock operation.
+func (e *Exec) lockOps(sp *FuncSpec, args []Val, post *Heap) {
+	if len(sp.Acquires) == 0 && len(sp.Releases) == 0 {
+		return
+	}
+	e.compDecl("LOCKS", "(Array Ref Bool)")
+	find := func(name string) (Val, bool) {
+		for i, pn := range sp.ParamNames {
+			if pn == name && i < len(args) {
+				return args[i], true
+			}
+		}
+		return Val{}, false
+	}
+	for _, pn := range sp.Acquires {
+		m, ok := find(pn)
+		if !ok {
+			panic("acquires: no parameter " + pn + " in " + sp.Key)
+		}
+		post.m["LOCKS"] = store(e.hget(post, "LOCKS"), m.T, "true")
+		// whatever the mutex protects may have been changed by its previous holders
+		mc := ""
+		if m.A != nil && len(m.A.Path) == 0 {
+			mc = m.A.Comp
+		}
+		var comps []string
+		// a mutex reached through a pointer variable (metricsMutex = &sync.Mutex{}) is not one of the
+		// struct-embedded mutexes the rules name (no /repo code takes their address except to lock them)
+		for c, gi := range e.eng.guarded {
+			if mc != "" && gi.mutexComp == mc {
+				comps = append(comps, c)
+			}
+		}
+		sort.Strings(comps)
+		for _, c := range comps {
+			if _, ok := e.compSort[c]; !ok {
+				continue // never touched by this function
+			}
+			post.m[c] = e.s.freshConst("locked", e.compSort[c])
+			if mt := e.eng.guarded[c].mapType; mt != nil {
+				dc, vc := e.mapComps(mt)
+				post.m[dc] = e.s.freshConst("locked", e.compSort[dc])
+				post.m[vc] = e.s.freshConst("locked", e.compSort[vc])
+			}
+		}
+	}
+	for _, pn := range sp.Releases {
+		m, ok := find(pn)
+		if !ok {
+			panic("releases: no parameter " + pn + " in " + sp.Key)
+		}
+		post.m["LOCKS"] = store(e.hget(post, "LOCKS"), m.T, "false")
 	}
 }
 
